@@ -87,6 +87,10 @@ func jitter() int {
 // Exit: in the free-running variant the harness simply returns.
 func ExitProcess() {}
 
+// Debug exists for API parity with the controlled scheduler.
+var Debug bool
+
+
 func Emit(kind, arg string) {
 	mu.Lock()
 	events = append(events, Event{T: ThreadID(), Kind: kind, Arg: arg})
